@@ -340,6 +340,14 @@ func ruleJSONValueSpec(c *Ctx) {
 					good = false
 					continue
 				}
+				// a clause emits its code and its value field unconditionally: a value that is sometimes
+				// written without its field 3 is invisible to the readers that were not changed with it
+				for _, part := range e {
+					if part.Op == "if" || part.Op == "tswitch" {
+						good = false
+						why = "clause " + cs.K + " emits conditionally (" + part.Op + "): the type code must always be followed by the same value field"
+					}
+				}
 				code := e[0].A[0].String()
 				if codes[code] {
 					good = false
